@@ -443,8 +443,8 @@ Definition insertBigInt (s : bvs) (offset size : N) (v : Z) : bvs :=
 
 Definition chr (n : N) : ascii := ascii_of_N n.
 Definition digit_char (v : N) : ascii := chr (48 + v).                 (* s << (unsigned) v, v < 10 *)
-Definition dec_digits2 (v : N) : list ascii :=                          (* s << v for v < 16 (decimal!) *)
-  if v <? 10 then [digit_char v] else [digit_char (v / 10); digit_char (v mod 10)].
+Definition hex_upper (v : N) : ascii :=                                 (* (char)('0'+v) / (char)('A'+(v-10)) *)
+  if v <? 10 then chr (48 + v) else chr (65 + (v - 10)).
 
 Definition bitChar (s : bvs) (i : N) : ascii :=
   if negb (get s DEFINED i) then "X"%char else if get s VALUE i then "1"%char else "0"%char.
@@ -470,14 +470,15 @@ Definition printState (hexflag : bool) (s : bvs) : list ascii :=
         (nrange 0 (bsize s / 4))
   else map (bitChar s) (down_from (bsize s)).
 
-(* formatState(s, state, base, dropLeadingZeros); the stream is in its default (decimal) mode,
-   so a nibble value v >= 10 is printed as two decimal digits *)
+(* formatState(s, state, base, dropLeadingZeros): one hex digit ('0'-'9','A'-'F') or 'X' per nibble,
+   independent of the stream's base (repaired in /repo fff2228; before, nibbles above 9 were printed
+   with `s << v` as two decimal digits) *)
 Definition formatState (s : bvs) (base : N) (dropLeadingZeros : bool) : list ascii :=
   if (base =? 16) && (bsize s mod 4 =? 0) then
     snd (fold_left (fun (st : bool * list ascii) i =>
                       let n := nibble s i in
                       if negb (fst st) || negb (snd n =? 0) || (bsize s / 4 <=? i + 1) then
-                        (false, snd st ++ (if fst n then dec_digits2 (snd n) else ["X"%char]))
+                        (false, snd st ++ [if negb (fst n) then "X"%char else hex_upper (snd n)])
                       else st)
                    (nrange 0 (bsize s / 4)) (dropLeadingZeros, []))
   else
